@@ -318,7 +318,12 @@ class FnLower:
                 if self.rett == 'void':
                     self.expr_stmt(e)
                 else:
+                    nd = len(self.scopes[-1].dtors)
                     val = self.addr(e) if self.ret_ref else self.rv(e)
+                    # a prvalue returned by value is constructed in the caller's return slot: the temporary that
+                    # stands for it here is not destroyed in this function
+                    if not self.ret_ref and len(self.scopes[-1].dtors) == nd + 1 and re.match(r'^_t\d+$', val or '') and ('(%s)' % val in self.scopes[-1].dtors[-1] or '%s)' % val in self.scopes[-1].dtors[-1]):
+                        self.scopes[-1].dtors.pop()
             d = self.unwind_to(-1)
             if d and val is not None and not SIMPLE_RE.match(val):
                 t = self.tmp('_ret'); self.emit('%s %s = %s;' % (self.rett, t, val)); val = t
